@@ -185,3 +185,5 @@ Print Assumptions C03_recursive_step_any_sound_cache.
 Print Assumptions C03_plain_mode_is_C01_engine.
 Print Assumptions C03_dispatch_by_value.
 Print Assumptions C03_calls_independent.
+From CPL Require Import gen.GenFuns_C03 GenProps.GenFunsEquivC03 GenProps.C03Src. (* source tie: gen/GenFuns_C03.v is regenerated from ca_functions.py on every run *)
+Theorem C03_source_tie : (forall (curr : list Z) (r start len : nat), (1 <= len)%nat -> (1 <= length curr)%nat -> src_memo_key (block_idx start len) curr (Z.of_nat r) = Ok (Z.of_nat start, wrap_take curr (Z.of_nat start - Z.of_nat r)%Z (len + 2 * r)%nat)) /\ (forall start len : nat, src_memo_split (block_idx start len) = (block_idx start (len / 2)%nat, block_idx (start + len / 2)%nat (len - len / 2)%nat)). Proof. exact C03_source_translation_agrees. Qed. Print Assumptions C03_source_tie.
